@@ -27,7 +27,19 @@ def run_vecs(c, vecs, tag):
 
 def run(c):
     r = c.tlc_model("Remove", "Remove.cfg", timeout=900, label="all configurations of <=3 remotes, target + 2 other entities, 3 entry points, repeated")
-    vecs = [v for v in r.printed() if "via" in v]
+    vecs, seen_v = [], set()
+    for v in r.printed():
+        if "via" not in v:
+            continue
+        k = json.dumps(v, sort_keys=True)
+        if k in seen_v:
+            continue      # the failed attempt of `cacheflaky` may leave any of the refs: same vector, printed once per choice
+        seen_v.add(k)
+        if v["via"] == "cacheflaky":
+            # which removal of a ref fails is the harness's to enumerate: the first .. fourth (local ref + three remotes at most)
+            vecs += [dict(v, failat=k) for k in (1, 2, 3, 4)]
+        else:
+            vecs.append(v)
     if len(vecs) < 500:
         raise Broken("only %d removal vectors" % len(vecs))
     sel = vecs if c.tier == "thorough" else [v for i, v in enumerate(vecs) if i % 4 == c.seed % 4]
@@ -35,7 +47,7 @@ def run(c):
     c.cov["vectors_executed"] += stats["executed"]
     c.cov["traces_validated_against_impl"] = stats["executed"]
     c.cov["exhaustive"] = c.tier == "thorough"
-    c.cov["by_entry_point"] = {k: sum(1 for v in sel if v["via"] == k) for k in ("entity", "cache", "wipe")}
+    c.cov["by_entry_point"] = {k: sum(1 for v in sel if v["via"] == k) for k in ("entity", "cache", "cacheflaky", "wipe")}
     c.sample([v for v in sel if v["via"] == "cache" and len(v["remotes"]) == 2][0])
     c.sample([v for v in sel if v["via"] == "wipe" and v["before"]["tref"]][0])
     seen = set()
